@@ -42,6 +42,10 @@ structure DState where
   /-- length of `segEvs` at every open SAVEPOINT: a rollback to it erases the bracket from the event list the
   segment predicates are evaluated on (`sp_bracket_erase`: the erased history reaches the same state up to the cache) -/
   spMarks : List Nat := []
+  /-- position in `segEvs` of a transaction record that continuum created LATE (inside `after_flush` or at
+  commit): it is reported by the recorder as `latetx`, run through the model as `manualTx`, and counts as a
+  cause for a transaction record (C02) only if a tracked change or an association statement was waiting -/
+  lateIdx : Option Nat := none
   pend : Obs := {}            -- the implementation's observation being received
   mBefore : Obs := {}         -- the model's observation at the last transaction boundary
   wf : Bool := true           -- every event so far satisfied the contract EvOK
@@ -339,6 +343,15 @@ def handle (st : DState) (toks : List String) : DState × Option String :=
     match parseNat t, parseNat j with
     | some t, some j => ({ st with cfg := { st.cfg with nullKeep := st.cfg.nullKeep ++ [(t, j)] } }, none)
     | _, _ => (st, bad)
+  | ["ev", "latetx", n] =>
+    match parseNat n with
+    | some n =>
+      let e : Ev := .manualTx n
+      let ok : Bool := decide (EvOK st.cfg st.st e)
+      let first := if st.wf && !ok then s!"{st.nev}:latetx" else st.wfFirst
+      ({ st with st := step st.cfg st.st e, segEvs := st.segEvs ++ [e], lateIdx := some st.segEvs.length,
+                 wf := st.wf && ok, wfFirst := first, nev := st.nev + 1 }, none)
+    | none => (st, bad)
   | "ev" :: rest =>
     match parseEv rest with
     | some e =>
@@ -347,9 +360,8 @@ def handle (st : DState) (toks : List String) : DState × Option String :=
         | .rollback => true
         | _ => false
       let ok : Bool := match e with
-        -- a rollback to a savepoint is handled by erasure (needs: nothing pending when the savepoint began)
+        -- a rollback to a savepoint is handled by erasure (`sp_bracket_erase`)
         | .spRollback => !st.spMarks.isEmpty
-        | .spBegin => decide (st.st.uowD.pending = [])
         | _ => decide (EvOK st.cfg st.st e) && decide (UpdShapeOK st.cfg st.st e)
       let first := if st.wf && !ok then s!"{st.nev}:{rest.headD "?"}" else st.wfFirst
       let (segEvs', marks') : List Ev × List Nat := match e with
@@ -359,7 +371,24 @@ def handle (st : DState) (toks : List String) : DState × Option String :=
             | [] => (st.segEvs, [])
             | m :: ms => (st.segEvs.take m, ms))
         | _ => (if isEnd then st.segEvs else st.segEvs ++ [e], if isEnd then [] else st.spMarks)
-      ({ st with st := step st.cfg st.st e, segEvs := segEvs', spMarks := marks',
+      -- a late transaction record is justified by what was waiting when the flush / commit processed it
+      let isAF := match e with
+        | .afterFlush => true
+        | _ => false
+      let waiting (l : List Ev) : Bool := l.any (fun x => x.tracked st.cfg || (match x with
+        | .assoc .. => true
+        | _ => false))
+      let segEvs'' : List Ev := match st.lateIdx, isAF with
+        | some i, true =>
+          -- window: from the last afterFlush before the late record to this afterFlush
+          let before := (st.segEvs.take i).reverse.takeWhile (fun x => match x with
+            | .afterFlush => false
+            | _ => true)
+          if waiting before || waiting (st.segEvs.drop (i + 1)) then segEvs'
+          else (segEvs'.take i) ++ (segEvs'.drop (i + 1))
+        | _, _ => segEvs'
+      ({ st with st := step st.cfg st.st e, segEvs := segEvs'', spMarks := marks',
+                 lateIdx := if isAF || isEnd then none else st.lateIdx,
                  wf := st.wf && ok, wfFirst := first, nev := st.nev + 1 }, none)
     | none => (st, bad)
   | ["iv", tid, pk, tx, e, op, vals, mods] =>
